@@ -619,6 +619,97 @@ theorem actionSearch_mem (N : Native V) (subj res : Entity V) (ctx : Option (Str
     refine ⟨i, ?_, by simp [h2, h1]⟩
     exact (List.getElem?_eq_some_iff.mp h1).1
 
+/-! ## the authorization model id: every native request carries the one the header pins
+
+`NativeM` = the native API with the model id of each call explicit; the endpoints `…H` take the header value
+`hdr`.  The statements below say, for EVERY native API: what an endpoint answers is what the native API
+answers FOR THE MODEL `hdr` (for ActionSearch: for the model `hdr` resolves to) — what the native API
+would answer for any other model (in particular for "" = the latest model of the store) is irrelevant. -/
+
+/-- **Evaluation**: the native Check of the mapped request AT the pinned model -/
+theorem evaluation_model_pinned (N : NativeM V) (hdr : String) (s r : Entity V) (a : Action V) (ctx : Option (Struct V))
+    (hv : (validSubject s && validResource r && validAction a) = true) :
+    evaluationH N hdr (some s) (some r) (some a) ctx = (N.check hdr (mapped s r a ctx)).toExcept :=
+  evaluation_eq_check (N.pinned hdr) s r a ctx hv
+
+/-- **execute_all**: when BatchCheck AT the pinned model answers item-wise like Check AT the pinned model
+(C07), entry `i` carries the decision of the native Check of item `i` AT the pinned model -/
+theorem evaluateAll_model_pinned (N : NativeM V) (hdr : String) (top : Item V) (items : List (Item V))
+    (rqs : List (CheckReq V)) (f : Nat → Option BatchRes)
+    (hb : buildAll top items = .ok rqs) (hf : N.batchCheck hdr rqs = .ok f)
+    (hp : ∀ i (h : i < rqs.length), agrees (N.check hdr rqs[i]) (f i)) :
+    ∃ l, evaluateAllAt N hdr top items = .ok l ∧ l.length = items.length ∧
+      ∀ i (h1 : i < items.length) (h2 : i < l.length),
+        l[i].allowed = (single (N.pinned hdr) top items[i]).allowed :=
+  evaluateAll_semantics (N.pinned hdr) top items rqs f hb hf hp
+
+/-- **both short-circuit semantics**: the single evaluations AT the pinned model, cut after the first stop -/
+theorem shortCircuit_model_pinned (N : NativeM V) (hdr : String) (sem : Nat) (top : Item V) (items : List (Item V)) :
+    shortCircuit (N.pinned hdr) sem top items = takeThrough (stops sem) (items.map (single (N.pinned hdr) top)) :=
+  shortCircuit_eq_takeThrough (N.pinned hdr) sem top items
+
+/-- the Evaluations endpoint sends the header value with the BatchCheckRequest of execute_all -/
+theorem evaluations_execAll_model_pinned (N : NativeM V) (hdr : String) (top it : Item V) (items : List (Item V))
+    (hv : validEvals { top := top, items := it :: items, semantic := some execAll } = true) :
+    evaluationsH N hdr { top := top, items := it :: items, semantic := some execAll } =
+      evaluateAllAt N hdr top (it :: items) := by
+  unfold evaluationsH evaluateAllAt
+  rw [evaluations_dispatch (N.pinned hdr) top it items execAll hv]
+  simp [execAll, denyOnFirstDeny, permitOnFirstPermit]
+
+/-- **no endpoint looks at another model**: two native APIs that agree on the pinned model give the same
+Evaluation, Evaluations (every semantic), SubjectSearch and ResourceSearch answers -/
+theorem endpoints_ignore_other_models (N N' : NativeM V) (hdr : String) (h : N.pinned hdr = N'.pinned hdr) :
+    (∀ s r a c, evaluationH N hdr s r a c = evaluationH N' hdr s r a c) ∧
+    (∀ rq, evaluationsH N hdr rq = evaluationsH N' hdr rq) ∧
+    (∀ t p res act c, subjectSearchH N hdr t p res act c = subjectSearchH N' hdr t p res act c) ∧
+    (∀ subj act t p c, resourceSearchH N hdr subj act t p c = resourceSearchH N' hdr subj act t p c) := by
+  refine ⟨?_, ?_, ?_, ?_⟩ <;> intros <;> simp only [evaluationH, evaluationsH, subjectSearchH, resourceSearchH, h]
+
+/-- **SubjectSearch / ResourceSearch**: ListUsers / StreamedListObjects AT the pinned model -/
+theorem searches_model_pinned (N : NativeM V) (hdr : String) :
+    (∀ (subjType : String) (subjProps : Option (Struct V)) (res : Entity V) (act : Action V) (ctx : Option (Struct V))
+        (us : List UserRes), (validName 50 subjType && validResource res && validAction act) = true →
+        N.listUsers hdr (subjectSearchReq subjType subjProps res act ctx) = .ok us →
+        (∀ u ∈ us, ∀ t i r, u ≠ .userset t i r) →
+        ∃ l, subjectSearchH N hdr subjType subjProps res act ctx = .ok l ∧
+          l.map (fun p => pair p.1 p.2) = us.map userString) ∧
+    (∀ (subj : Entity V) (act : Action V) (resType : String) (resProps ctx : Option (Struct V)) (ps : List (String × String)),
+        (validSubject subj && validAction act && validName 50 resType) = true →
+        N.streamedListObjects hdr (resourceSearchReq subj act resType resProps ctx) = .ok (ps.map (fun p => pair p.1 p.2)) →
+        (∀ p ∈ ps, ':' ∉ p.1.toList) →
+        resourceSearchH N hdr subj act resType resProps ctx = .ok ps) :=
+  ⟨fun subjType subjProps res act ctx us hv hn hu => subjectSearch_exact (N.pinned hdr) subjType subjProps res act ctx us hv hn hu,
+   fun subj act resType resProps ctx ps hv hn hc => resourceSearch_exact (N.pinned hdr) subj act resType resProps ctx ps hv hn hc⟩
+
+/-- **ActionSearch**: relations and BatchCheck of the model the header RESOLVES to -/
+theorem actionSearch_model_pinned (N : NativeM V) (hdr rid : String) (subj res : Entity V) (ctx : Option (Struct V))
+    (rels : List String) (f : Nat → Option BatchRes)
+    (hv : (validSubject subj && validResource res) = true) (hres : N.resolve hdr = .ok rid)
+    (hr : N.relations rid res.typ = .ok rels)
+    (hf : N.batchCheck rid (rels.map (actionCheckReq subj res ctx)) = .ok f) :
+    ∃ l, actionSearchH N hdr subj res ctx = .ok l ∧
+      ∀ name, name ∈ l ↔ ∃ i, rels[i]? = some name ∧ f i = some (.allowed true) := by
+  obtain ⟨l, h1, h2⟩ := actionSearch_mem (N.pinned rid) subj res ctx rels f hv hr hf
+  exact ⟨l, by simp [actionSearchH, hv, hres, h1], h2⟩
+
+/-- a store with two models: the older one ("OLD") allows, the latest one ("") denies everything -/
+def twoModels : NativeM Nat :=
+  { check := fun mid _ => if mid = "OLD" then .allow else .deny,
+    batchCheck := fun mid _ => .ok (fun _ => some (.allowed (mid = "OLD"))),
+    listUsers := fun _ _ => .ok [], streamedListObjects := fun _ _ => .ok [],
+    resolve := fun mid => .ok (if mid = "" then "NEW" else mid), relations := fun _ _ => .ok [] }
+
+def itemX : Item Nat :=
+  { subject := some { typ := "user", id := "x" }, resource := some { typ := "doc", id := "1" }, action := some { name := "viewer" } }
+
+/-- **The field is necessary**: a BatchCheckRequest WITHOUT the pinned id (`batchMid = ""`) answers from the
+latest model — execute_all then contradicts the single Evaluation of the same item under the same header. -/
+theorem unpinned_batch_differs :
+    evaluateAllAt twoModels "OLD" {} [itemX] = .ok [.decision true] ∧
+    evaluateAllAt twoModels "" {} [itemX] = .ok [.decision false] ∧
+    evaluationH twoModels "OLD" itemX.subject itemX.resource itemX.action none = .ok true := by decide
+
 /-! ## ties to the source (`Gen.Authzen`, extract/facts_authzen.go) -/
 
 /-- merge order: subject, resource, action properties, then the request context -/
@@ -780,6 +871,33 @@ theorem tie_action_search :
       ["actions = append(actions, &authzenv1.Action{Name: relationNames[idx]})", "}", "}",
        "sort.Slice(actions, func(i, j int) bool { return actions[i].GetName() < actions[j].GetName() })",
        "return &authzenv1.ActionSearchResponse{Results: actions}, nil"] := ⟨rfl, rfl, rfl, rfl, rfl, rfl⟩
+
+/-- **the model id**: it is read from the header once per endpoint, handed to `buildCheckRequest` /
+`evaluateWithShortCircuit` / `evaluateAll` / `resolveTypesystem`, and EVERY native request literal built in
+authzen.go sets `AuthorizationModelId` (ActionSearch: the resolved id) -/
+theorem tie_model_pinned :
+    Gen.Authzen.nativeModelIds =
+      ["buildCheckRequest:CheckRequest:AuthorizationModelId=authorizationModelID",
+       "evaluateAll:BatchCheckRequest:AuthorizationModelId=authorizationModelID",
+       "SubjectSearch:ListUsersRequest:AuthorizationModelId=authorizationModelID",
+       "ResourceSearch:StreamedListObjectsRequest:AuthorizationModelId=authorizationModelID",
+       "ActionSearch:BatchCheckRequest:AuthorizationModelId=resolvedModelID"] ∧
+    Gen.Authzen.modelIdSources =
+      ["getAuthorizationModelIDFromHeader:authorizationModelID := strings.TrimSpace(values[0])",
+       "Evaluation:authorizationModelID := getAuthorizationModelIDFromHeader(ctx)",
+       "Evaluations:authorizationModelID := getAuthorizationModelIDFromHeader(ctx)",
+       "SubjectSearch:authorizationModelID := getAuthorizationModelIDFromHeader(ctx)",
+       "ResourceSearch:authorizationModelID := getAuthorizationModelIDFromHeader(ctx)",
+       "ActionSearch:authorizationModelID := getAuthorizationModelIDFromHeader(ctx)",
+       "ActionSearch:resolvedModelID := typesys.GetAuthorizationModelID()"] ∧
+    Gen.Authzen.modelIdPassing =
+      ["Evaluation:buildCheckRequest(req.GetStoreId(), authorizationModelID, req.GetSubject(), req.GetResource(), req.GetAction(), req.GetContext())",
+       "Evaluations:s.evaluateWithShortCircuit(ctx, req, authorizationModelID, semantic)",
+       "Evaluations:s.evaluateAll(ctx, req, authorizationModelID)",
+       "evaluateAll:buildCheckRequest(req.GetStoreId(), authorizationModelID, subject, resource, action, evalContext)",
+       "evaluateWithShortCircuit:buildCheckRequest(req.GetStoreId(), authorizationModelID, subject, resource, action, evalContext)",
+       "ActionSearch:s.resolveTypesystem(ctx, req.GetStoreId(), authorizationModelID)"] ∧
+    Gen.Authzen.buildCheckRequestFields.contains "AuthorizationModelId=authorizationModelID" = true := ⟨rfl, rfl, rfl, by decide⟩
 
 /-! ## non-vacuity -/
 
